@@ -22,6 +22,7 @@ import (
 	"github.com/hashicorp/nodeenrollment/rotation"
 	"github.com/hashicorp/nodeenrollment/types"
 	"google.golang.org/protobuf/proto"
+	"google.golang.org/protobuf/types/known/structpb"
 	"google.golang.org/protobuf/types/known/timestamppb"
 )
 
@@ -75,6 +76,42 @@ func TestVerifReplayC12(t *testing.T) {
 	add("token creation time", ctm)
 	if _, _, err := registration.CreateServerLedActivationToken(ctx, server, &types.ServerLedRegistrationRequest{}, wopt); err != nil {
 		t.Fatal(err)
+	}
+
+	// a later rotation of roots that carry state (promotion of next): the new and the retained root keys
+	{
+		st2 := vrNew(t)
+		state, _ := structpb.NewStruct(map[string]interface{}{"k": "v"})
+		r1, err := rotation.RotateRootCertificates(ctx, st2, wopt, nodeenrollment.WithState(state))
+		if err != nil {
+			t.Fatal(err)
+		}
+		// make next valid now so that the following call promotes it and mints a new next
+		r1.Next.NotBefore = timestamppb.New(time.Now().Add(-time.Minute))
+		if err := r1.Store(ctx, st2, wopt); err != nil {
+			t.Fatal(err)
+		}
+		r2, err := rotation.RotateRootCertificates(ctx, st2, wopt)
+		if err != nil {
+			t.Fatal(err)
+		}
+		if string(r2.Current.PublicKeyPkix) != string(r1.Next.PublicKeyPkix) {
+			t.Fatalf("setup: the second rotation did not promote")
+		}
+		for _, op := range st2.ops {
+			if op.Kind != "Store" {
+				continue
+			}
+			b, _ := proto.Marshal(op.Msg)
+			for name, sec := range map[string][]byte{"first current": r1.Current.PrivateKeyPkcs8, "first next": r1.Next.PrivateKeyPkcs8, "second next": r2.Next.PrivateKeyPkcs8} {
+				if len(sec) > 0 && bytes.Contains(b, sec) {
+					t.Errorf("a rotation of roots with state handed the %s root private key to storage in clear", name)
+				}
+			}
+		}
+		if _, err := types.LoadRootCertificates(ctx, st2); err == nil {
+			t.Errorf("rotated roots load without the storage wrapper")
+		}
 	}
 
 	// nothing secret in what storage was handed
